@@ -172,9 +172,9 @@ class C09(Spec):
                 if gv['cap'] != rv.cap:
                     return ('%s:wrong-capacity' % name, 'after operation %d (%s): vector %d has capacity %d, expected %d' % (
                         i, op, k, gv['cap'], rv.cap))
-                if gv['elems'] != rv.elems[:64]:
+                if gv['elems'] != rv.elems[:256]:
                     return ('%s:wrong-contents' % name, 'after operation %d (%s): vector %d holds %s, expected %s' % (
-                        i, op, k, gv['elems'], rv.elems[:64]))
+                        i, op, k, gv['elems'], rv.elems[:256]))
         fin = impl[len(ops)] if len(impl) > len(ops) else '<missing>'
         if fin.split()[:1] != ['fin']:
             return ('fin:no-output', 'no final live-block count (%s)' % fin)
